@@ -32,6 +32,7 @@ func verifVFSPut(name string, content []byte)
 func verifVFSDel(name string)
 func verifTask(name string, notification bool)
 func verifSched(explore bool)
+func verifMapOrder(explore bool)
 `
 
 func (e *Engine) byteIn(name, set string) *symv {
@@ -220,6 +221,10 @@ var intrinsics = map[string]extFn{
 	},
 	"verifVFSDel": func(e *Engine, _ *frame, _ *ssa.Function, a []value) value {
 		delete(e.vfs, e.needStr(a[0], "verifVFSDel"))
+		return nil
+	},
+	"verifMapOrder": func(e *Engine, _ *frame, _ *ssa.Function, a []value) value {
+		e.permOff = !e.truth(a[0])
 		return nil
 	},
 	"verifSched": func(e *Engine, _ *frame, _ *ssa.Function, a []value) value {
